@@ -437,11 +437,31 @@ func printBlock(b *strings.Builder, body []Stmt, ind int) {
 	b.WriteString("}")
 }
 
+func isBlockStmt(s Stmt) bool {
+	switch s.(type) {
+	case If, While, Foreach, Switch, FuncDef:
+		return true
+	}
+	return false
+}
+
 func printStmts(b *strings.Builder, ss []Stmt, ind int) {
+	prevBlock := false
 	for _, s := range ss {
+		var one strings.Builder
+		printStmt(&one, s, ind)
+		text := one.String()
+		if prevBlock && len(text) > 0 && strings.ContainsRune("-([", rune(text[0])) {
+			// blocks are expressions in this language: "} -x;" would continue
+			// the block as the left operand of an infix operator. A semicolon
+			// ends the statement.
+			indent(b, ind)
+			b.WriteString(";\n")
+		}
 		indent(b, ind)
-		printStmt(b, s, ind)
+		b.WriteString(text)
 		b.WriteByte('\n')
+		prevBlock = isBlockStmt(s)
 	}
 }
 
